@@ -53,6 +53,18 @@ MUTATION_DRILLS = [
      "existing_tests": "all 87 pass", "fired": "VIOLATION spec-mismatch:*replace* (found input)"},
     {"mutation": "config_compiler.cc IncludeReference::Resolve: merge the included map over the local keys (included wins)",
      "existing_tests": "2 tests fail", "fired": "VIOLATION spec-mismatch:include (found input)"},
+    {"mutation": "seeded change C14-1: GetResolvedItem appends the index spelling used in the reference (@last, @01, @before N) to node_path "
+                 "instead of FormatListIndex(index), so the addressed list element's own directives are not resolved before it is copied",
+     "existing_tests": "all pass (as delivered)", "first_run": "missed by quick (no reference went through a non-canonical spelling to an element with directives)",
+     "fired": "after adding the families index-spelling:* (every spelling x before/after the list x include/patch reference x local/cross-file via a .custom "
+              "document) and non-canonical spellings in random reference paths: VIOLATION spec-mismatch:include+patch+index (found input, e.g. "
+              "targeted:index-spelling:@00:before:local)"},
+    {"mutation": "seeded change C14-2: ConfigCowRef<T>::CopyOnWrite returns the container itself when it is empty, so a shared empty []/{} of an "
+                 "included node is written in place",
+     "existing_tests": "all pass (as delivered)", "first_run": "only impl-model-mismatch, no failing input",
+     "fired": "after adding the families empty-container:* (empty list/map inside an included node written through by patch paths, patch lists and "
+              "sibling merges, observed by a second includer, an include of the whole source and a sub-node include) and empty maps in random "
+              "documents: VIOLATION spec-mismatch:* on five families and source-changed:* on a random set (found input)"},
     {"mutation": "build_info_plugin.cc before 24599a7 (unchanged tree at the time): __build_info written in place into a shared root map",
      "existing_tests": "all pass", "fired": "VIOLATION source-changed:* (found input) - genuine defect, fixed"},
     {"mutation": "config_compiler.cc before 76ec084 (unchanged tree at the time): AppendToList wrote twice through one cow reference",
@@ -173,7 +185,7 @@ def docs_json(docs):
     return {d: G.to_yaml(y) for d, y in docs.items()}
 
 
-def compare_set(si, docs, impl, model, stats):
+def compare_set(si, docs, impl, model, stats, mode=""):
     """yield (key, what, replay, found_input) for one document set"""
     if impl is None or not impl.get("ended"):
         yield ("harness-incomplete", "the harness did not finish this document set (crash / sanitizer report?)",
@@ -248,6 +260,9 @@ def compare_set(si, docs, impl, model, stats):
                     cls = "reads-cyclic-or-erroneous"
                     break
         stats["class:" + cls] = stats.get("class:" + cls, 0) + 1
+        fam = ":".join(mode.split(":")[:2]) if mode.startswith("targeted:") else mode.split(":")[0]
+        byf = stats.setdefault("by_family", {}).setdefault(fam, {})
+        byf[cls] = byf.get(cls, 0) + 1
         if sp["oof"]:
             yield ("spec-out-of-fuel", "compile_spec ran out of fuel (check parameter too small)", {"set": si, "document": d, "documents": docs_json(docs)}, False)
             continue
@@ -394,7 +409,7 @@ def run(ctx):
         ctx.violation("model-abort", "the extracted model runner failed", {"stderr": merr[-3000:]}, found_input=False)
     seen = set()
     for si, docs in enumerate(sets):
-        for key, what, replay, found in compare_set(si, docs, impl.get(si), model.get(si), stats):
+        for key, what, replay, found in compare_set(si, docs, impl.get(si), model.get(si), stats, modes[si]):
             if key in seen:
                 continue
             seen.add(key)
@@ -408,7 +423,8 @@ def run(ctx):
         "distinct_nontrivial": stats.get("equal", 0),
         "rule": "documents whose compile_spec run is clear (acyclic, no error) AND whose librime tree equals compile_spec; "
                 "every generated document has at least one directive-bearing set around it",
-        "classification": {k: v for k, v in stats.items()},
+        "classification": {k: v for k, v in stats.items() if k != "by_family"},
+        "classification_by_family": stats.get("by_family", {}),
         "generator_features": dict(sorted(feats.items())),
         "samples": [{"mode": modes[i], "documents": docs_json(sets[i])} for i in (0, 2, 9, 35, 36, 40) if i < nsets],
         "mutation_drills": MUTATION_DRILLS,
